@@ -101,6 +101,16 @@ def ScaledSpec.render (e : ScaledSpec) (bs : List UInt8) : Val :=
   | some s => if e.raw bs = s then .none else .f32 (e.raw bs) e.op
   | none => .f32 (e.raw bs) e.op
 
+/-- `render` as a function of the field's raw bits alone. -/
+def ScaledSpec.renderRaw (e : ScaledSpec) (v : Nat) : Val :=
+  let r : Int := if e.signed then toSigned e.w v else (v : Int)
+  match e.sentinel with
+  | some s => if r = s then .none else .f32 r e.op
+  | none => .f32 r e.op
+
+theorem ScaledSpec.render_eq_renderRaw (e : ScaledSpec) (bs : List UInt8) :
+    e.render bs = e.renderRaw (field bs e.off e.w) := rfl
+
 /-- The exact value an `FOp` stands for, as a fraction `num / den` applied to the raw integer. -/
 def FOp.num : FOp → Nat | .div600000mul1000 => 1000 | _ => 1
 def FOp.den : FOp → Nat | .div10 => 10 | .div600000 => 600000 | .div600 => 600 | .ident => 1 | .div600000mul1000 => 600000
